@@ -67,16 +67,18 @@ def run(pid):
     readable = {sig: histbfs.describe(exe, h, env) for sig, h in shortest.items()}
     for sig, detail, hist in res.violations:
         c.violation(sig, detail + (" :: history: " + readable[sig] if shortest[sig] == hist else ""), {"history": hist})
-    if res.depth_completed < 4:
+    if res.depth_completed < 4 and not res.violations:
         c.harness_error("BFS did not complete depth 4 within the budget (depth_completed=%d)" % res.depth_completed)
     cover = read_cover(covdir)
     # vacuity guards: the situations the property is about must have been reached
-    need = ["reserve:fits", "reserve:grow", "state:two-internal-holes", "repack-moved:resize", "slice-outlives-parent",
-            "setAlignment:live", "threw:resize:below", "state:unaligned-offset", "release:partial", "release:covered", "slice:covered"]
+    # (enforced only on runs without violations: violating transitions are not expanded, which cuts the space
+    #  behind them, and such a run fails anyway)
+    need = ["reserve:fits", "reserve:grow", "reserve:fragmented", "state:two-internal-holes", "repack-moved:resize", "repack-moved:setAlignment",
+            "repack-moved:reserve", "slice-outlives-parent", "setAlignment:live", "threw:resize:below", "state:unaligned-offset",
+            "release:partial", "release:covered", "slice:covered"]
     if not res.violations:
-        need += ["reserve:fragmented", "repack-moved:setAlignment", "repack-moved:reserve"]
-    for k in need:
-        c.vacuity(cover.get(k, 0) > 0, "situation %r was never reached (coverage: %s)" % (k, sorted(cover.items())))
+        for k in need:
+            c.vacuity(cover.get(k, 0) > 0, "situation %r was never reached (coverage: %s)" % (k, sorted(cover.items())))
     c.set_model_checking(res.states, res.transitions, res.transitions, res.samples,
                          exhaustive=(res.depth_completed >= depth or res.exhaustive))
     c.coverage.update({
